@@ -27,7 +27,7 @@ ID = 'C09'
 MODULE = 'SshAudit.Props.C09'
 NAMESPACE = 'SshAudit.C09'
 THEOREMS = ['recv_spec', 'ensureReadAux_spec', 'ensureRead_spec', 'readPacket_no_type_error', 'getBannerAux_spec', 'ensureRead_ok', 'ensureRead_fail',
-            'readPacket_cost', 'handshake_cost', 'malformed_handshake_no_report', 'handshake_ok_sound', 'probe_misbehaviour_contained', 'probe_exception_is_none']
+            'readPacket_cost', 'handshake_cost', 'malformed_handshake_no_report', 'handshake_ok_sound', 'probe_misbehaviour_contained', 'probe_exception_is_none', 'readList_prefix', 'kexinit_prefix_rejected']
 TECHNIQUE = 'Lean 4 theorems (induction over arbitrary finite receive-event lists: stall and recv-call bounds, exception taxonomy of the packet reader, handshake classification ⇒ exit status) + event-level and byte-level fault-injection correspondence with audit()/main()'
 LEVEL_TEXT = ('The receive side of the socket class is modelled over arbitrary finite event lists (any bytes, any segmentation, stalls, resets, close) and it is proved by induction that every read loop stops at the first '
               'stall, that the handshake waits for at most one timeout and makes at most (#events + 2) recv calls, that the packet reader can only leave through the two framing exits, and that every handshake class but "ok" '
